@@ -43,7 +43,7 @@ func runC13(run *Run, replay string) {
 	ctx := context.Background()
 	for bi := 0; bi < bases; bi++ {
 		r := rand.New(rand.NewSource(subSeed(run.Res.Seed, bi)))
-		opts := ScenarioOpts{Histories: hist, Inject: bi%3 == 1, Gen: GenOpts{Degenerate: bi%7 == 6}}
+		opts := ScenarioOpts{Histories: hist, Inject: bi%3 == 1, Gen: GenOpts{Degenerate: bi%7 == 6, DynFocus: bi%8 == 3}}
 		if bi%2 == 1 {
 			opts.Gen.MaxDepth = 3
 		}
@@ -167,7 +167,7 @@ func runC14(run *Run, replay string) {
 	c14JSON(run, bases*2)
 	for bi := 0; bi < bases; bi++ {
 		r := rand.New(rand.NewSource(subSeed(run.Res.Seed, bi)))
-		opts := ScenarioOpts{Histories: hist, Inject: bi%3 == 1, SecondPath: true}
+		opts := ScenarioOpts{Histories: hist, Inject: bi%3 == 1, SecondPath: true, Gen: GenOpts{DynFocus: bi%8 == 3}}
 		scs := genScenarios(r, opts)
 		for si, sc := range scs {
 			f := sc.Main.Ctx.Files[sc.File]
